@@ -218,6 +218,7 @@ func (vc *FuncVC) genOnce() {
 	ensGoals := make([][]string, len(spec.Ensures))
 	frameGoals := map[string][]string{}
 	lockGoals := map[string][]string{}
+	var condFrameGoals []string
 	for _, r := range f.rets {
 		r := r
 		f.curReach = r.reach
@@ -259,6 +260,31 @@ func (vc *FuncVC) genOnce() {
 		if spec.HasMod || spec.Pure {
 			f.frameObligations(spec, entry, r.state, r.reach, frameGoals)
 		}
+		if spec.UnchangedUnless != nil {
+			tv, err := env.tr(spec.UnchangedUnless.Expr)
+			if err != nil {
+				vc.errorf("%s:%d: %v", spec.UnchangedUnless.File, spec.UnchangedUnless.Line, err)
+			} else {
+				var ks []string
+				for k := range r.state.m {
+					ks = append(ks, k)
+				}
+				sort.Strings(ks)
+				var gs []string
+				for _, k := range ks {
+					if _, known := vc.eng.keySort[k]; !known || !condFrameKey(k) {
+						continue
+					}
+					nv, ov := f.get(r.state, k), f.get(entry, k)
+					if nv != ov {
+						gs = append(gs, S("=", nv, ov))
+					}
+				}
+				if len(gs) > 0 {
+					condFrameGoals = append(condFrameGoals, Imp(r.reach, Imp(Not(tv.T), And(gs...))))
+				}
+			}
+		}
 		f.lockBalance(entry, r.state, r.reach, lockGoals)
 	}
 	f.curReach = "true"
@@ -280,6 +306,9 @@ func (vc *FuncVC) genOnce() {
 			continue
 		}
 		f.oblige("ensures", clauseName(en, "ensures", i), And(ensGoals[i]...), en.Text, token.NoPos)
+	}
+	if len(condFrameGoals) > 0 {
+		f.oblige("cond-frame", "unchanged-unless", And(condFrameGoals...), spec.UnchangedUnless.Text, token.NoPos)
 	}
 	var fk []string
 	for k := range frameGoals {
@@ -371,6 +400,9 @@ func (f *Frame) frameObligations(spec *FuncSpec, entry, final *State, reach stri
 		nv, ov := f.get(final, k), f.get(entry, k)
 		if nv == ov {
 			continue
+		}
+		if k == "ghost:dyncalls" {
+			continue // a ghost counter, not program state
 		}
 		if k == "alloc" {
 			if spec.Pure {
